@@ -249,6 +249,9 @@ def to_real(ast):
         return to_real(ast[1]) | to_real(ast[2])
     q = base[ast[1]]()
     if kind == "noop":
+        # noop() matches every point - also when it is called on a query that already names a key or a map function
+        for part in (ast[2] if len(ast) > 2 else ()):
+            q = q.map(MAPS[part[1]]) if isinstance(part, tuple) else _key(q, part)
         return q.noop()
     if kind == "exists":
         return _key(q, ast[2]).exists()
@@ -418,7 +421,7 @@ def show(ast):
         return f"({show(ast[1])} {s} {show(ast[2])})"
     names = {"time": "Time", "measurement": "Meas", "tags": "Tag", "fields": "Field"}
     if k == "noop":
-        return f"{names[ast[1]]}.noop()"
+        return f"{names[ast[1]]}{''.join('[' + repr(p) + ']' for p in (ast[2] if len(ast) > 2 else ()))}.noop()"
     if k == "exists":
         return f"{names[ast[1]]}[{ast[2]!r}].exists()"
     p = names[ast[1]]
